@@ -159,7 +159,7 @@ def config_record(base, lib, legacy, ctor="from_string"):
 RMC_CONSTS = {
     "quick": dict(MaxLen=5, NodeToks="NodesABV", SymToks="SymDotEq", RingToks="Rings1", MultCounts="NoMult",
                   MaxDepth=1, MaxOpen=1, EmitAll="FALSE", MaxNodes=3, LibSel="LibsAll"),
-    "thorough": dict(MaxLen=6, NodeToks="NodesABV", SymToks="SymDotEq", RingToks="Rings1", MultCounts="NoMult",
+    "thorough": dict(MaxLen=6, NodeToks="NodesABV", SymToks="SymDotEq", RingToks="Rings1", MultCounts="Mult2",
                      MaxDepth=1, MaxOpen=1, EmitAll="FALSE", MaxNodes=4, LibSel="LibsAll"),
 }
 
